@@ -469,9 +469,20 @@ def wfTextObs (cfg : Cfg) (t : TextObs) (cap : Nat) : Bool :=
     (c.ch == 0 || c.lvl == 10 || printable cfg c.ch)) &&
   t.av == getAvailable t.cells && t.len == getLength t.cells
 
+/-- no cell counts as received -/
+def neverReceived (t : TextObs) : Bool := t.cells.all (fun c => c.lvl == 10)
+
+/-- `init` / `clear`: the calls after which, by definition, nothing has been received -/
+def Op.isReset : Op → Bool
+  | .init | .clear => true
+  | _ => false
+
 def chkC16 (cfg : Cfg) (r : StepRec) : Bool :=
   wfTextObs cfg r.after.ps capPs && wfTextObs cfg r.after.rt0 capRt &&
-  wfTextObs cfg r.after.rt1 capRt && wfTextObs cfg r.after.ptyn capPtyn
+  wfTextObs cfg r.after.rt1 capRt && wfTextObs cfg r.after.ptyn capPtyn &&
+  -- "a never-received cell holds a space at level 'uncorrectable'": right after a reset every cell is one
+  (!r.op.isReset || (neverReceived r.after.ps && neverReceived r.after.rt0 &&
+    neverReceived r.after.rt1 && neverReceived r.after.ptyn))
 
 /-- all per-call predicates, with the property each belongs to -/
 def allChecks (tb : Tabs) (m m' : Mon) (r : StepRec) : List (String × Bool) :=
